@@ -119,9 +119,26 @@ func oneRequest(h http.Handler, c *sessClient, st sessStep, mode string, keepCoo
 		extra = [][2]string{{"own", "client-1"}, {"other", "client-2"}}
 	case "same-name-as-jar":
 		extra = [][2]string{{"x", "client-x"}}
+	case "two-lines", "three-lines-session-last":
+		// the client spreads its cookies over several Cookie header lines (HTTP/2 clients and some libraries do)
+		extra = [][2]string{{"own", "client-1"}, {"other", "client-2"}}
 	}
-	for _, e := range extra {
-		req.AddCookie(&http.Cookie{Name: e[0], Value: e[1]})
+	switch st.Extra {
+	case "two-lines":
+		// line 1: session cookie and the first own cookie; line 2: the second own cookie
+		req.AddCookie(&http.Cookie{Name: extra[0][0], Value: extra[0][1]})
+		req.Header.Add("Cookie", extra[1][0]+"="+extra[1][1])
+	case "three-lines-session-last":
+		req.Header.Del("Cookie")
+		req.Header.Add("Cookie", extra[0][0]+"="+extra[0][1])
+		req.Header.Add("Cookie", extra[1][0]+"="+extra[1][1])
+		if presented != "" {
+			req.Header.Add("Cookie", sessCookieName+"="+presented)
+		}
+	default:
+		for _, e := range extra {
+			req.AddCookie(&http.Cookie{Name: e[0], Value: e[1]})
+		}
 	}
 	expected := [][2]string{}
 	for _, ck := range c.ref.Cookies(u) {
